@@ -660,7 +660,49 @@ def coverage_extra(results):
             pos["link href"] = pos.get("link href", 0) + len(case[3])
             pos["html lang"] = pos.get("html lang", 0) + len(case[4])
             pos["body class"] = pos.get("body class", 0) + len(case[5])
-    return {"string_positions_exercised": pos}
+    return {"string_positions_exercised": pos, "coq_parser_vs_reference_parser": parser_agreement(results)}
+
+
+def _py_nodes(ns):
+    out = []
+    for n in ns:
+        if n[0] == "text":
+            out.append([0, list(n[1].encode("utf-8"))])
+        elif n[0] == "comment":
+            out.append([1, list(n[1].encode("utf-8"))])
+        elif n[0] == "el":
+            out.append([2, list(n[1].encode("utf-8")),
+                        [[list(a.encode("utf-8")), list(v.encode("utf-8"))] for a, v in n[2]], _py_nodes(n[3])])
+    return out
+
+
+def parser_agreement(results, limit=4000):
+    """cross-check of the two parsers on the real outputs: the partial parser of the theorems
+    (Html/Tokenizer.v, run through the extracted model, op 5) against gen/htmlparse.py. Where
+    the Coq parser answers (it declines what is outside its subset) the trees must be equal."""
+    import os
+    exe = os.path.join(C.BUILD, "extract", "model_C06")
+    outs = [r["impl"] for r in results if r["item"]["case"][0] == 1 and isinstance(r["impl"], list)][:limit]
+    if not outs or not os.path.exists(exe):
+        return {"compared": 0}
+    lines, _, _ = C.run_sharded([exe], [[5, o] for o in outs])
+    agree = declined = disagree = 0
+    first = None
+    for o, l in zip(outs, lines):
+        r = C.parse_sx(l)
+        if isinstance(r, str) or r == []:
+            declined += 1
+            continue
+        py, _ = H.parse_fragment(bytes(o).decode("utf-8"))
+        if r[0] == _py_nodes(py):
+            agree += 1
+        else:
+            disagree += 1
+            first = first or bytes(o).decode("utf-8")[:300]
+    out = {"compared": len(outs), "equal_trees": agree, "coq_parser_declined": declined, "different_trees": disagree}
+    if first:
+        out["first_difference_on"] = first
+    return out
 
 
 def _count(v, pos, parent="ordinary"):
